@@ -17,7 +17,8 @@
 //! exploration twice and demanding identical counts (a harness that does not own its nondeterminism is a
 //! machinery error) and (b) a second Layer 1 exploration with an *order-sensitive* fingerprint whose states,
 //! projected to multisets, must be exactly the states of the multiset exploration of the same depth.
-use mc_core::{bfs, BfsStats, Ctx, Level, Machine};
+use crate::explore::bfs_chunked;
+use mc_core::{BfsStats, Ctx, Level, Machine};
 use radix_common::prelude::*;
 use radix_engine::kernel::substate_locks::SubstateLocks;
 use serde_json::json;
@@ -475,32 +476,34 @@ fn multiset_projection_count(m: &L1, max_depth: usize, threads: usize) -> u64 {
 // driver
 // ------------------------------------------------------------------------------------------------
 
+const CHUNK: usize = 20_000;
+
 pub fn run(ctx: Ctx) -> ! {
     if ctx.replay.is_some() {
         replay(ctx);
     }
     let quick = ctx.quick();
-    let d1 = ctx.pick(7, 10);
+    let d1 = ctx.pick(7, 11);
     let d_ord = ctx.pick(4, 5);
-    let (d2, cap2_s) = ctx.pick((4, 40.0), (6, 900.0));
+    let (d2, cap2_s) = ctx.pick((5, 40.0), (7, 900.0));
 
     // determinism: the first layers twice, identical counts (replaces the stateright cross-check)
     let m_plain = L1 { ordered: false, probes: true };
-    let a = bfs(&ctx, &m_plain, "L1-determinism-a", 3, u64::MAX, 60.0);
-    let b = bfs(&ctx, &m_plain, "L1-determinism-b", 3, u64::MAX, 60.0);
+    let a = bfs_chunked(&ctx, &m_plain, "L1-determinism-a", 3, u64::MAX, 60.0, CHUNK);
+    let b = bfs_chunked(&ctx, &m_plain, "L1-determinism-b", 3, u64::MAX, 60.0, 7);
     if a.states != b.states || a.transitions != b.transitions || a.per_depth_states != b.per_depth_states {
         mc_core::machinery_error(&format!("C13: two runs of the same exploration disagree: {a:?} vs {b:?}"));
     }
 
     // Layer 1, multiset fingerprint, lookahead probes as additional oracle
     let m1 = L1 { ordered: false, probes: true };
-    let s1 = bfs(&ctx, &m1, "L1", d1, 20_000_000, if quick { 35.0 } else { 600.0 });
+    let s1 = bfs_chunked(&ctx, &m1, "L1", d1, 20_000_000, if quick { 35.0 } else { 600.0 }, CHUNK);
     println!("C13 L1 depth {} states {} transitions {} capped {} per-depth {:?} ({:.1}s)", s1.depth_completed, s1.states, s1.transitions, s1.capped, s1.per_depth_states, ctx.elapsed_s());
 
     // Layer 1, order-sensitive fingerprint (cross-check of the symmetry argument)
     let m_ord = L1 { ordered: true, probes: true };
-    let s_ord = bfs(&ctx, &m_ord, "L1-ordered", d_ord, 20_000_000, if quick { 10.0 } else { 200.0 });
-    let ms_ref = bfs(&ctx, &L1 { ordered: false, probes: false }, "L1-multiset-ref", d_ord, 20_000_000, 200.0);
+    let s_ord = bfs_chunked(&ctx, &m_ord, "L1-ordered", d_ord, 20_000_000, if quick { 10.0 } else { 200.0 }, CHUNK);
+    let ms_ref = bfs_chunked(&ctx, &L1 { ordered: false, probes: false }, "L1-multiset-ref", d_ord, 20_000_000, 200.0, CHUNK);
     if !s_ord.capped && !ms_ref.capped && !ctx.has_violations() {
         let projected = multiset_projection_count(&L1 { ordered: true, probes: false }, d_ord, ctx.threads);
         if projected != ms_ref.states {
